@@ -4,3 +4,5 @@ import Mkdb.Generated.Tokens
 import Mkdb.Props.C15
 import Mkdb.Props.C12
 import Mkdb.Props.C08
+import Mkdb.Props.C09
+import Mkdb.Props.C10
